@@ -108,7 +108,16 @@ def _calls_self(F, callee, seen=None, depth=0):
 def splice(caller, b, callee):
     bl = caller.blocks[b]
     t = bl['term']
-    if t['target'] is None or len(t['args']) != callee.arg_count:
+    is_closure = '{closure' in callee.name
+    if t['target'] is None:
+        return False
+    if is_closure:
+        # "rust-call" ABI: the call passes (environment, tuple of arguments); the body has the tuple spread over _2, _3, ..
+        if len(t['args']) != 2 or callee.arg_count < 1 or t['args'][1]['k'] not in ('copy', 'move', 'const'):
+            return False
+        if callee.arg_count > 1 and t['args'][1]['k'] == 'const':
+            return False
+    elif len(t['args']) != callee.arg_count:
         return False
     L0 = len(caller.locals)
     B0 = len(caller.blocks)
@@ -131,8 +140,15 @@ def splice(caller, b, callee):
         if nl.get('name'):
             names.add(nl['name'])
     sp = t.get('span')
-    for i, a in enumerate(t['args']):
-        bl['stmts'].append({'k': 'assign', 'lhs': {'l': L0 + 1 + i, 'p': []}, 'rv': {'k': 'use', 'op': a}, 'span': sp, 'inlined_param': True})
+    if is_closure:
+        bl['stmts'].append({'k': 'assign', 'lhs': {'l': L0 + 1, 'p': []}, 'rv': {'k': 'use', 'op': t['args'][0]}, 'span': sp, 'inlined_param': True})
+        for i in range(callee.arg_count - 1):
+            tp = t['args'][1]['pl']
+            src = {'k': 'copy', 'pl': {'l': tp['l'], 'p': list(tp['p']) + [{'f': i, 'name': str(i), 'ty': callee.local_ty(2 + i)}]}}
+            bl['stmts'].append({'k': 'assign', 'lhs': {'l': L0 + 2 + i, 'p': []}, 'rv': {'k': 'use', 'op': src}, 'span': sp, 'inlined_param': True})
+    else:
+        for i, a in enumerate(t['args']):
+            bl['stmts'].append({'k': 'assign', 'lhs': {'l': L0 + 1 + i, 'p': []}, 'rv': {'k': 'use', 'op': a}, 'span': sp, 'inlined_param': True})
     caller.blocks.extend(new_blocks)
     caller.blocks.append({'stmts': [{'k': 'assign', 'lhs': t['dest'], 'rv': {'k': 'use', 'op': {'k': 'move', 'pl': {'l': L0, 'p': []}}}, 'span': sp}],
                           'term': {'k': 'goto', 'target': t['target'], 'span': sp}, 'cleanup': False})
@@ -144,13 +160,41 @@ def splice(caller, b, callee):
     return True
 
 
+def _closure_of(fn, op, depth=0):
+    """name of the closure a callee operand holds, when every assignment that defines it (through moves, copies and borrows)
+    leads to one `[closure@..]` aggregate"""
+    if op.get('k') not in ('copy', 'move') or depth > 12:
+        return None
+    l = op['pl']['l']
+    projs = [p for p in op['pl']['p'] if p != 'deref']
+    if projs:
+        return None
+    defs = []
+    for b, i, st in fn.stmts():
+        if st['k'] == 'assign' and st['lhs']['l'] == l and not st['lhs']['p']:
+            defs.append(st['rv'])
+    for b, t in fn.calls():
+        if t['dest']['l'] == l and not t['dest']['p']:
+            return None
+    if len(defs) != 1:
+        return None
+    rv = defs[0]
+    if rv['k'] == 'aggr' and rv.get('akind') == 'closure':
+        return rv.get('closure')
+    if rv['k'] == 'use' and rv['op'].get('k') in ('copy', 'move'):
+        return _closure_of(fn, rv['op'], depth + 1)
+    if rv['k'] == 'ref' and not [p for p in rv['pl']['p'] if p != 'deref']:
+        return _closure_of(fn, {'k': 'copy', 'pl': {'l': rv['pl']['l'], 'p': []}}, depth + 1)
+    return None
+
+
 def inline_new_helpers(F, vocab=None, rounds=6, keep=()):
     """returns {caller name: [inlined callee names]}"""
     vocab = load_vocab() if vocab is None else vocab
     done = {}
     if not vocab:
         return done
-    new = {n for n in F.fns if (n not in vocab and '{closure' not in n) or (n in TRANSPARENT_HELPERS and n not in keep)}
+    new = {n for n in F.fns if n not in vocab or (n in TRANSPARENT_HELPERS and n not in keep)}
     if not new:
         return done
     originals = {n: copy.deepcopy(F.fns[n]) for n in new}     # inline the helper as written, not a partially inlined copy
@@ -167,6 +211,12 @@ def inline_new_helpers(F, vocab=None, rounds=6, keep=()):
                 if t['k'] != 'call' or t['fn'].get('k') != 'def':
                     continue
                 cn = t['fn']['name']
+                if cn not in F.fns and cn.rsplit('::', 1)[-1] in ('call', 'call_mut', 'call_once') and 'ops::function::Fn' in cn and t['args']:
+                    # `f(x)` on a generic `F: Fn(..)` parameter: after the helper is inlined the callee value is a known closure
+                    tgt = _closure_of(caller, t['args'][0])
+                    if tgt is not None and tgt in F.fns:
+                        t['fn'] = dict(t['fn'], name=tgt, devirtualised=True)
+                        cn = tgt
                 if cn not in new or cn == caller.name:
                     continue
                 callee = originals[cn]
@@ -178,4 +228,16 @@ def inline_new_helpers(F, vocab=None, rounds=6, keep=()):
                     done.setdefault(caller.name, []).append(cn)
                     progress = True
                     break
+    # closures whose every use was spliced into the code that creates them: their stand-alone bodies are no longer part of
+    # the program as analysed (the parameters of the stand-alone body are unconstrained, its sites would be judged without
+    # the caller's guards)
+    inlined_names = {c for v in done.values() for c in v if '{closure' in c}
+    gone = set()
+    for c in inlined_names:
+        direct = any(t['fn'].get('k') == 'def' and t['fn'].get('name') == c for f in F.fns.values() if f.name != c for _, t in f.calls())
+        makers = [f for f in F.fns.values() if any(st.get('rv', {}).get('k') == 'aggr' and st['rv'].get('akind') == 'closure' and st['rv'].get('closure') == c for _, _, st in f.stmts())]
+        indirect = any('ops::function::Fn' in (t['fn'].get('name') or '') for f in makers for _, t in f.calls() if t['fn'].get('k') == 'def')
+        if not direct and not indirect:
+            gone.add(c)
+    F.fully_inlined = gone
     return done
